@@ -8,14 +8,14 @@ EXPLANATION = ("CrossHair executes the real find_all with the pattern index, the
 
 
 def run(ctx):
-    ctx.functions += ["gsm.matcher.find_all", "gsm.Pattern.consume/is_accepting", "gsm.predicate.Identity.accept", "gsm.Expression.expression_to_nfa/nfa_to_dfa (untraced, concrete)"]
+    ctx.functions += ["languages.*.extract_headers (header expressions captured)", "token_matching.predicate.* (Balanced, Name, Keyword, Symbol, Operator)", "gsm.matcher.find_all", "gsm.Pattern.consume/is_accepting", "gsm.predicate.Identity.accept", "gsm.Expression.expression_to_nfa/nfa_to_dfa (untraced, concrete)"]
     import random
     if ctx.quick():
         plan = [(2, 3, 10, None), (3, 3, 12, 48)]
     else:
         plan = [(2, 5, 6, None), (3, 3, 16, None)]
     ctx.assumptions += ["S-auto: automaton construction runs for real but untraced", "predicates pairwise disjoint (Identity atoms)"]
-    ctx.outside += ["patterns/sequences beyond the listed bounds", "built-in header shapes with Balanced predicates over token sequences: covered indirectly by C03/C05/C15 (token soups), not by this check"]
+    ctx.outside += ["patterns/sequences beyond the listed bounds", "built-in header shapes: sequences longer than the bound; expressions whose structure the reference does not model are reported inconclusive"]
     jobs = []
     seen = set()
     def interplay(t):
@@ -42,4 +42,20 @@ def run(ctx):
                 ("seq", ("plus", A), Bb), ("alt", ("plus", ("seq", A, Bb)), A)]
         jobs.append(Job("c14.py", "h_find_all", {"patterns": core, "L": 4}, 200, 30, tag="fixed core of overlapping-attempt shapes, L<=4", meta={"sigtag": "find_all", "tolerant": True}))
         ctx.bounds["core"] = f"{len(core)} fixed trees with two attempts alive at once, sequences of length <= 4"
+    # ---- (b) the built-in header shapes over token sequences
+    from vlib import capture, xh
+    NB = 3 if ctx.quick() else 4
+    for lang in capture.LANG_NAMES:
+        npairs = len(capture.capture(lang))
+        for pair in range(npairs):
+            st = xh.call("c14b.py", "status", {"lang": lang, "pair": pair}, wall_timeout=120).get("value") or {}
+            if st.get("unmodelled"):
+                ctx.inconclusive_(f"builtin-shape:{lang}:pattern{pair}", "header expression has a structure the reference does not model: " + str(st.get("unmodelled")))
+                continue
+            alpha = st.get("alphabet", [])
+            firsts = [None] if ctx.quick() else list(range(len(alpha)))
+            for f in firsts:
+                jobs.append(Job("c14b.py", "h_shape", {"lang": lang, "pair": pair, "N": NB, "first": f, "tolerate": ["find_all:incomplete:inner-match-shadows-outer"]}, 300 if ctx.quick() else 1500, 40,
+                                tag=f"built-in header shape {lang}#{pair} N={NB}" + (f" first={alpha[f]!r}" if f is not None else ""), meta={"sigtag": "find_all:builtin", "twin": f in (None, 0)}))
+    ctx.bounds["built-in header shapes"] = f"every token sequence of length {NB} over each language's predicate-induced alphabet, for every captured header expression (reference: structural interpretation of the captured expression)"
     ctx.run_xh(jobs)
